@@ -47,6 +47,7 @@ GenCfg draw_cfg(Rng& rng)
     c.multiline = rng.chance(0.5);
     c.anonymous_locs = rng.chance(0.5);
     c.depth = rng.range(1, 3);
+    c.dynamic_templates = rng.chance(0.12);
     if (rng.chance(0.08)) {
         // now and then a large model: the k-th template, the n-th location, many edges on one location
         c.max_templates = rng.range(4, 8);
@@ -391,6 +392,19 @@ struct G
         d.name = name;
         d.tags = std::move(tags);
         std::sort(d.tags.begin(), d.tags.end());
+        // number of array dimensions of the declared variable: the '[' that follow its name at nesting depth 0
+        size_t at = text.find(" " + name + "[");
+        if (at != std::string::npos) {
+            int depth = 0;
+            for (size_t i = at + 1 + name.size(); i < text.size(); ++i) {
+                if (text[i] == '[' && depth++ == 0)
+                    ++d.dims;
+                else if (text[i] == ']')
+                    --depth;
+                else if (depth == 0)
+                    break;
+            }
+        }
         return d;
     }
 
@@ -861,6 +875,8 @@ struct G
     {
         int pn = 0;
         for (auto& t : m.templs) {
+            if (t.dynamic)
+                continue;  // spawned at run time, never instantiated in the system declaration
             bool all_free = !t.params.empty();
             for (auto& p : t.params)
                 if (p.base != 'f')
@@ -1011,6 +1027,37 @@ Model gen_model(Rng& rng, const GenCfg& cfg)
     for (int i = 0; i < nt; ++i) {
         Scope tsc;
         m.templs.push_back(g.gen_template(i, gsc, tsc));
+    }
+    if (cfg.dynamic_templates) {
+        // a dynamic template with parameters, defined somewhere before the last ordinary template
+        MTempl d;
+        d.dynamic = true;
+        d.name = "D0";
+        for (int i = 0; i < 2; ++i) {
+            MParam p;
+            p.name = "dp" + std::to_string(i);
+            p.text = "const int " + p.name;
+            d.params.push_back(p);
+        }
+        for (int i = 0; i < 2; ++i) {
+            MLoc l;
+            l.id = "id" + std::to_string(900 + i);
+            l.name = "L" + std::to_string(i);
+            d.locs.push_back(l);
+        }
+        MEdge e;
+        e.src = 0;
+        e.dst = 1;
+        int t = g.tag();
+        e.guard.text = "dp0 < " + std::to_string(t);
+        e.guard.tags = {t};
+        d.edges.push_back(e);
+        MDecl decl;
+        decl.kind = MDecl::OTHER;
+        decl.name = "D0";
+        decl.text = "dynamic D0(const int dp0, const int dp1);";
+        m.gdecls.push_back(decl);
+        m.templs.insert(m.templs.begin() + rng.below((uint32_t)m.templs.size()), d);
     }
     g.gen_system(m, gsc);
     return m;
